@@ -502,6 +502,7 @@ def c03(sc, io):
 
 def c10(sc, io):
     res = []
+    tlogs = {}
     for ob in io["obs"]:
         s = ob["s"]
         trades = {}
@@ -527,12 +528,16 @@ def c10(sc, io):
                     res.append(("C10-live-order-marked-violation", "every order of a trade is complete but the trade is %s: a control refusing a request marked a live order VIOLATION, which never completes the trade (slot locked)" % st, det))
                 else:
                     res.append(("C10-trade-not-completed", "every order of trade %s is complete but the trade is %s" % (t, st), det))
+            if st == "Complete" and live and os_[0]["trade_log"] == tlogs.get((s, t)):
+                continue      # a completed trade the strategy re-used: it keeps the status Complete until the response to the new placement
             if st == "Complete" and live:
                 log = [x for o in os_ for x in [o["log"]]]
                 if any(any(a == "Execution complete" and b_ in ("Executable",) for a, b_ in zip(l, l[1:])) for l in log):
                     res.append(("C10-reopened-after-complete", "trade %s is Complete (slot freed) while an order re-opened by a late FAILURE response is live" % t, det))
                 else:
                     res.append(("C10-complete-with-live-order", "trade %s is Complete while order(s) %s are not" % (t, [o["o"] for o in os_ if not o["complete"]]), det))
+        for t, os_ in trades.items():
+            tlogs[(s, t)] = list(os_[0]["trade_log"])
         for k, (nt, nl) in by.items():
             c = next((v for kk, v in ob.get("ctx", {}).items() if int(float(kk.split("/")[0])) == k), {"trades": 0, "live": 0})
             det = {"pt": ob["pt"], "selection": k, "context": c, "recount": [nt, nl]}
